@@ -108,6 +108,52 @@ def monitor(case, tr, raw):
     return None
 
 
+def to_labels(tr, nk):
+    """decode the protocol events of a T2 trace into the label quadruples of
+    coq/Kernel.v (glue; the judgement is made by the extracted acceptor)."""
+    out = [nk]
+    seen_first_write = set()
+    sw_old = {}
+    pos = []          # trace index of each label, for diagnostics
+    for i, (t, loc, kind, val) in enumerate(tr):
+        lab = None
+        if kind == 19 and 200 <= loc < 400:
+            f = loc - 200
+            if f < nk and f not in seen_first_write:
+                seen_first_write.add(f)        # fiber_create_from_thread's own initialisation
+                continue
+            lab = (2, t, f, val)
+        elif kind in (9, 19) and 400 <= loc < 400 + 20 * 16:
+            owner, field = divmod(loc - 400, 20)
+            if field in (2, 3, 4, 5, 6):
+                if kind == 19 and field == 6 and val >= 1000:
+                    lab = (3, t, val - 1000, 0)
+                    if owner != t:
+                        out += [11, t, owner, 0]; pos.append(i)
+                else:
+                    lab = (11, t, owner, 0)
+        elif kind == 919:
+            if loc == EV_CREATE:
+                lab = (1, t, val - 1000, 0)
+            elif loc == EV_SCHED:
+                lab = (4, t, val - 1000, 0)
+            elif loc == EV_NEXT:
+                lab = (5, t, val - 1000, 0)
+            elif loc == EV_STEAL:
+                lab = (6, t, val - 1000, 0)
+            elif loc == EV_SW_OLD:
+                sw_old[t] = val - 1000
+            elif loc == EV_SW_NEW:
+                lab = (7, t, sw_old.pop(t, 0), val - 1000)
+            elif loc == EV_RESUMED:
+                lab = (8, t, 0, 0)
+            elif loc == EV_DESTROY:
+                lab = (9, t, val - 1000, 0)
+        if lab:
+            out += list(lab); pos.append(i)
+    return out, pos
+
+
 def gen_cases(ctx, tier):
     rng = random.Random(ctx.seed * 7919 + 1)
     cases = []
